@@ -431,6 +431,8 @@ class RunnerProxy(object):
                                None if act is None else self.rec.fid[(t.name, act.name)]])
 
     def send(self, ctl):
+        if not hasattr(self.rec, "oracle"):      # recorders of other harnesses (props/C12) carry no oracle log
+            return self._send(ctl)
         self.rec.oracle.append(["sendbegin", self.rec.tick, self.tasker.name, ctl, self.tasker.status,
                                 len(self.rec.trace), self.rec.senddepth])
         self.rec.senddepth += 1
@@ -441,7 +443,7 @@ class RunnerProxy(object):
 
     def _send(self, ctl):
         snap = getattr(self.rec, "snapshot", None)
-        if snap is not None and ctl in (1, 4) and not self.rec.quiet:     # START / READY: oracle record
+        if snap is not None and ctl in (1, 4) and not getattr(self.rec, "quiet", 0):     # START / READY: oracle record
             entry = ["ctl", self.rec.tick, self.tasker.name, ctl, self.tasker.status, snap(),
                      len(self.rec.trace), None, None]
             self.rec.oracle.append(entry)
